@@ -915,12 +915,14 @@ def index_at(p, label, idx):
             return Poly.atom(a)
         if a[0] == 'fn' and a[1] == 'arange' and len(a) == 3 and a[2] == ('L', label):
             return idx                         # arange(n)[i] == i
-        if a[0] == 'fn' and a[1] == 'slice' and len(a) == 7 and a[2] == ('L', label) and a[3][0] == 'B' and a[6] == ('C', None) and a[3][1] != label \
+        if a[0] == 'fn' and a[1] == 'slice' and len(a) == 7 and a[2] == ('L', label) and a[3][0] == 'B' and a[3][1] != label \
+                and (a[6] == ('C', None) or (a[6][0] == 'P' and Poly.from_key(a[6][1]).is_const() and Poly.from_key(a[6][1]).const_value() > 0)) \
                 and (a[4] == ('C', None) or (a[4][0] == 'P' and Poly.from_key(a[4][1]).is_const() and Poly.from_key(a[4][1]).const_value() >= 0)) \
                 and not (idx.is_const() and idx.const_value() < 0):
-            # element i of x[lo:hi] with a fixed non-negative start (and i counted from the front) is x[lo + i]
+            # element i of x[lo:hi:step] with a fixed non-negative start and a fixed positive step (i counted from the front) is x[lo + i*step]
             lo = Poly() if a[4] == ('C', None) else Poly.from_key(a[4][1])
-            return index_at(Poly.from_key(a[3][2]), a[3][1], lo + idx)
+            step = Poly.const(1) if a[6] == ('C', None) else Poly.from_key(a[6][1])
+            return index_at(Poly.from_key(a[3][2]), a[3][1], lo + idx * step)
         return Poly.atom(('fn', 'at', ('B', label, Poly.atom(a).key()), ('P', idx.key())))
 
     def go_atom(a):
